@@ -16,12 +16,12 @@ from ..runner import Skip
 RULE = ("cases from rng(seed, 3, 0, i): well-posed cluster graphs (1-4 clusters of r2/r3/se2/se3 poses, 2-6 (thorough: up to 12) poses each, spanning "
         "tree + loop + parallel odometry edges in either vertex order, landmarks with rotated offsets, custom unary/binary/ternary edges with "
         "numerical or AD Jacobians, dense SPD information with cross terms, shuffled vertex/edge lists, ids negative/sparse/2^62/2^64, several "
-        "fixed vertices, initial poses sharing one pose object / numpy array) x fix_first_pose in {True, False}; one real iteration vs the dense reduced Gauss-Newton step; every 4th case adds a second call on the same objects after a vertex was newly fixed / information changed, compared with a fresh graph in the same state. distinct = fingerprint "
+        "fixed vertices, initial poses sharing one pose object / numpy array) x fix_first_pose in {True, False}; one real iteration vs the dense reduced Gauss-Newton step; an eighth of the graphs start within 1e-12..1e-7 (relative) of their optimum (tiny but non-zero steps); every 4th case adds a second call on the same objects after a vertex was newly fixed / information changed, compared with a fresh graph in the same state. distinct = fingerprint "
         "of the spec; non-trivial = at least one free vertex moved by more than 1e-6 and cond(H_reduced) <= 1e10.")
 REQ = ["eval:gn-step-applied", "eval:fixed-vertex-zero-increment", "eval:solver-boundary-H", "eval:solver-boundary-rhs", "class:parallel_edges", "class:edge_high_index_first",
        "class:mixed_dimensions", "class:custom_unary", "class:custom_ternary", "class:custom_numeric_jacobian", "class:fix_first_pose=True", "class:fix_first_pose=False",
        "class:several_fixed_per_cluster", "class:landmark_offset_rotated", "class:shared_pose_storage", "class:exact_special_values", "class:second_call_after_edits", "eval:second-call-equals-fresh-graph", "class:fixed_flags_as_int", "class:landmark_offset_zero_translation_rotated", "eval:K-iterations-equal-K-single-steps", "class:information_scales:per_edge",
-       "class:information_scales:all_tiny", "class:graph_with_100+_vertices", "class:evaluated_then_moved_in_place", "class:edges_prebound_to_stale_vertices"]
+       "class:information_scales:all_tiny", "class:graph_with_100+_vertices", "class:evaluated_then_moved_in_place", "class:edges_prebound_to_stale_vertices", "class:start_within_1e-7_of_the_optimum"]
 PLAN = {
     "quick": {"cases": 1600, "soft_s": 70, "min_nontrivial": 400, "require": REQ},
     "thorough": {"cases": 60000, "soft_s": 1200, "min_nontrivial": 10000, "require": REQ},
@@ -75,6 +75,16 @@ def one_step_check(ctx, spec, labels, ffp, case, monitor_prefix="", cond_max=1e1
             Hr, br, _, _, _ = M.assemble(g, "ref")
             dx_ad, cond_ad = M.reduced_step(Hr, br, free)
         except Exception:
+            dx_ad = None
+        # the true derivative exists only in the smooth domain of every edge: a distance / range edge between two coinciding positions (vertices
+        # sharing one storage are moved together by the in-place writes) has no derivative there; only the edges' own Jacobians are then compared
+        for e in g._edges:
+            if type(e).__name__ in ("DistanceEdge", "RangeEdge"):
+                pa, pb = np.asarray(e.vertices[0].pose.position, dtype=float), np.asarray(e.vertices[1].pose.position, dtype=float)
+                if float(np.linalg.norm(pa - pb)) < 0.2:
+                    dx_ad = None
+                    ctx.count("independent_assembly_skipped:distance_edge_at_its_singularity")
+        if dx_ad is not None and not np.all(np.isfinite(dx_ad)):
             dx_ad = None
     with SolverSpy() as spy:
         try:
@@ -214,6 +224,30 @@ def run_case(ctx, i, rng):
     else:
         spec, labels = gen.cluster_graph(rng, size=((30, 60) if large else (2, 12 if big else 6)), alias=bool(rng.random() < 0.25), special=bool(rng.random() < 0.3), wide_info=wide)
     labels.add("fix_first_pose=%s" % ffp)
+    if rng.random() < 0.12 and not large:
+        # a start that is already within 1e-12..1e-7 (relative to the coordinates) of the optimum: the Gauss-Newton step is tiny, and it is still the step
+        try:
+            g0 = M.build(spec)
+            with np.errstate(all="ignore"):
+                M.quiet_optimize(g0, max_iter=25, tol=1e-14, fix_first_pose=ffp)
+            ok0 = all(math.isfinite(x) for v in g0._vertices for x in M.fl(v.pose))
+        except Exception:
+            ok0 = False
+        if ok0:
+            mag = float(10 ** rng.uniform(-12, -7))
+            spec = gen.copy_spec(spec)
+            spec.pop("share", None)
+            for sv, lv in zip(spec["vertices"], g0._vertices):
+                k0 = sv["kind"]
+                p0 = M.fl(lv.pose)
+                nt = {"r2": 2, "r3": 3, "se2": 2, "se3": 3}[k0]
+                sc = max(1.0, R.tmag(k0, p0))
+                if not sv.get("fixed") and not (ffp and sv is spec["vertices"][0]):
+                    p0 = [x + float(rng.normal()) * mag * sc for x in p0[:nt]] + list(p0[nt:])
+                    if k0 == "se2":
+                        p0[2] = R.val(R.wrap(p0[2] + float(rng.normal()) * mag))
+                sv["pose"] = p0
+            labels.add("start_within_1e-7_of_the_optimum")
     case = {"graph": {k: v for k, v in spec.items() if k != "truth_by_id"}, "fix_first_pose": ffp}
     res = one_step_check(ctx, spec, labels, ffp, case, cond_max=(1e13 if wide else 1e10), inplace_rng=(rng if i % 5 == 3 else None))
     if i % 4 == 2:
